@@ -93,13 +93,6 @@ Theorem C17_drive_total_contextual : forall subs st ng b ops state c amb, out_mo
 Proof. exact ctx_drive_total. Qed.
 Print Assumptions C17_drive_total_contextual.
 
-(* C17_drive_total for ligature and insertion subtables is PARTIAL: the generic theorem above applies
-   once  pot (transition b) <= pot b  is shown for lig_transition / ins_transition (move_to restores
-   out_len; insertion pays `count` of max_ops for `count` glyphs).  Full statement:
-     forall actions comps ligs st ng b ops, drive_loop (lig_machine actions comps ligs) st ng
-        (drive_fuel (drive_start false b) ops) 0 lig_ctx0 (drive_start false b) ops 0 <> None
-   and the same for ins_machine.  The correspondence run observes OutOfFuel as a model Error (none seen). *)
-
 (* ------------------------------------------------------------------ 4. contextual transition *)
 
 Theorem C17_contextual_transition_shape : forall subs ng c e b ops c' b' ops' a, inplace b ->
@@ -155,3 +148,169 @@ Theorem C17_flags_gating_test : forall flags d s,
   (N.land (ms_coverage s) 0x20000000 <> 0 \/ (dir_vertical d = true <-> N.land (ms_coverage s) 0x80000000 <> 0)).
 Proof. exact sub_runs_spec. Qed.
 Print Assumptions C17_flags_gating_test.
+
+(* ------------------------------------------------------------------ 3b. drive totality, streaming subtables *)
+
+Local Close Scope N_scope.
+
+(* ligature and insertion subtables: the transition restores out_len (ligature) or pays `count` units
+   of max_ops for `count` inserted glyphs (insertion), so the same potential argument applies — for
+   every buffer, every state table and payload tables *)
+Theorem C17_drive_total_ligature : forall actions comps ligs st ng b ops state c amb,
+  drive_loop (lig_machine actions comps ligs) st ng (drive_fuel (drive_start false b) ops) state c (drive_start false b) ops amb <> None.
+Proof. exact lig_drive_total. Qed.
+Print Assumptions C17_drive_total_ligature.
+
+Theorem C17_drive_total_insertion : forall glyphs st ng b ops state c amb,
+  drive_loop (ins_machine glyphs) st ng (drive_fuel (drive_start false b) ops) state c (drive_start false b) ops amb <> None.
+Proof. exact ins_drive_total. Qed.
+Print Assumptions C17_drive_total_insertion.
+
+(* ------------------------------------------------------------------ 4. single transitions: what lands where *)
+
+(* contextual: the glyph at `mark` goes through substitution table mark_index, then the glyph at
+   min(idx, len-1) — as it is after the first substitution — through table current_index; every other
+   glyph and all clusters are untouched; SET_MARK records idx *)
+Theorem C17_contextual : forall subs ng ms mk e b ops c' b' ops' a gm gc rm rc,
+  ((dead b =? blen b) && negb ms)%bool = false -> blen b <> 0 ->
+  (ce_mark_index e =? 65535)%N = false -> nth_error (arr b) mk = Some gm ->
+  ctx_replacement subs ng (ce_mark_index e) (gid gm) = inl rm ->
+  let i := Nat.min (dead b) (blen b - 1) in
+  (ce_current_index e =? 65535)%N = false -> nth_error (sub_at mk rm (arr b)) i = Some gc ->
+  ctx_replacement subs ng (ce_current_index e) (gid gc) = inl rc ->
+  ctx_transition subs ng (ms, mk) e b ops = Ok (c', b', ops', a) ->
+  arr b' = sub_at i rc (sub_at mk rm (arr b)) /\
+  map cluster (arr b') = map cluster (arr b) /\
+  c' = (if has (ce_flags e) 0x8000 then (true, dead b) else (ms, mk)) /\ ops' = ops /\ a = 0%N.
+Proof. exact ctx_transition_exact. Qed.
+Print Assumptions C17_contextual.
+
+(* insertion at the current glyph x: the listed glyphs land before or after x as flagged, in list
+   order, as copies of x (same cluster) with the listed ids; the cursor ends after them, or at the
+   start of the block when DONT_ADVANCE is set; `count` units of max_ops are paid *)
+Theorem C17_insertion_current : forall glyphs mark e b ops mark' b' ops' a x t gs count,
+  out_mode b = true -> rest b = x :: t ->
+  ie_marked_index e = 65535%N -> ie_current_index e <> 65535%N ->
+  count = N.shiftr (N.land (ie_flags e) 0x03E0) 5 ->
+  ins_list glyphs (ie_current_index e) (N.to_nat count) = Some gs ->
+  (0 <= ops - Z.of_N count)%Z ->
+  ins_transition glyphs mark e b ops = Ok (mark', b', ops', a) -> ok b' = true ->
+  arr b' = pre b ++ (if has (ie_flags e) 0x0800 then inserted x gs ++ [x] else x :: inserted x gs) ++ t /\
+  length (pre b') = (if has (ie_flags e) 0x4000 then length (pre b) else length (pre b) + length gs) /\
+  ops' = (ops - Z.of_N count)%Z /\ a = 0%N /\
+  mark' = (if has (ie_flags e) 0x8000 then length (pre b) else mark).
+Proof. exact ins_current_exact. Qed.
+Print Assumptions C17_insertion_current.
+
+(* insertion at the marked glyph m = out[mark]: before or after m as flagged, copies of m *)
+Theorem C17_insertion_marked : forall glyphs e b ops mark' b' ops' a P m Q gs count,
+  out_mode b = true -> pre b = P ++ m :: Q ->
+  ie_marked_index e <> 65535%N -> ie_current_index e = 65535%N ->
+  count = N.land (ie_flags e) 0x1F ->
+  ins_list glyphs (ie_marked_index e) (N.to_nat count) = Some gs ->
+  (0 < ops - Z.of_N count)%Z ->
+  ins_transition glyphs (length P) e b ops = Ok (mark', b', ops', a) -> ok b' = true ->
+  arr b' = P ++ (if has (ie_flags e) 0x0400 then inserted m gs ++ [m] else m :: inserted m gs) ++ Q ++ rest b /\
+  length (pre b') = length (pre b) + length gs /\
+  ops' = (ops - Z.of_N count)%Z /\ a = 0%N.
+Proof. exact ins_marked_exact. Qed.
+Print Assumptions C17_insertion_marked.
+
+(* ligature, one pair (a on the component stack and in the out-buffer, b current and pushed by this
+   entry), action list [act0: component of b; act1: component of a, STORE or LAST]: the pops follow the
+   action list from the top of the stack, the ligature glyph ligs[comp(b) + comp(a)] replaces a (the
+   stored position), b becomes the deleted glyph 0xFFFF, merge_out_clusters runs over exactly the two,
+   the cursor ends where it was *)
+Theorem C17_ligature_stack_pair : forall actions comps ligs ps0 e b ops c' b' ops' a P xa xb t act0 act1 c0 c1 lig,
+  out_mode b = true -> pre b = P ++ [xa] -> rest b = xb :: t ->
+  length ps0 = LIG_MAX_MATCHES -> pos_get ps0 0 = length P ->
+  has (le_flags e) 0x8000 = true -> has (le_flags e) 0x2000 = true ->
+  nth_error actions (N.to_nat (le_action_index e)) = Some act0 -> has act0 0xC0000000 = false ->
+  nth_error actions (N.to_nat (le_action_index e + 1)) = Some act1 -> has act1 0xC0000000 = true ->
+  (Z.of_N (gid xb) + lig_offset act0 <? 0)%Z = false ->
+  nth_error comps (Z.to_nat (Z.of_N (gid xb) + lig_offset act0)) = Some c0 ->
+  (Z.of_N (gid xa) + lig_offset act1 <? 0)%Z = false ->
+  nth_error comps (Z.to_nat (Z.of_N (gid xa) + lig_offset act1)) = Some c1 ->
+  nth_error ligs (N.to_nat (((0 + c0) mod 65536 + c1) mod 65536)) = Some lig ->
+  lig_transition actions comps ligs (1, ps0) e b ops = Ok (c', b', ops', a) -> ok b' = true ->
+  map gid (arr b') = map gid P ++ [lig; DELETED_GLYPH] ++ map gid t /\ length (pre b') = length P + 1 /\
+  (exists b4 b5, pre b4 = P ++ [set_gid xa lig; set_gid xb DELETED_GLYPH] /\ rest b4 = t /\ level b4 = level b /\
+                 merge_out_clusters b4 (length P) (length P + 2) = Ok b5 /\ arr b' = arr b5) /\
+  ops' = ops /\ a = 0%N /\ fst c' = (if has act1 0x80000000 then 1 else 0).
+Proof. exact lig_pair_exact. Qed.
+Print Assumptions C17_ligature_stack_pair.
+
+(* levels 0/1: after merge_out_clusters(s, e) every glyph of out[s..e) carries the minimum cluster
+   of the range — the ligature and the deleted components share min(clusters) *)
+Theorem C17_ligature_cluster_min : forall b s e b' i x, merge_out_clusters b s e = Ok b' ->
+  level b <> 2%N -> 2 <= e - s -> s <= i < e -> nth_error (pre b') i = Some x ->
+  exists first, nth_error (pre b) s = Some first /\
+                cluster x = min_cluster_list (slice (pre b) (S s) e) (cluster first).
+Proof. exact merge_out_clusters_min. Qed.
+Print Assumptions C17_ligature_cluster_min.
+
+(* C17_ligature_stack for stacks of arbitrary depth and C17_insertion with both insertions in one entry
+   are PARTIAL (the pair / single-insertion cases above are proved; the general cases are covered by
+   the correspondence run only).  Full statement: for a stack [p_1..p_n] and an action list whose k-th
+   action is the first with STORE/LAST, lig_loop visits p_n, p_{n-1}, .. p_{n-k+1}, replaces the glyph
+   at p_{n-k+1} by ligs[sum of components], the others by 0xFFFF, and leaves match_length = n-k+1. *)
+
+(* ------------------------------------------------------------------ non-vacuity: the hand-derived results of fontgen's selftest *)
+
+Local Open Scope N_scope.
+
+Definition ex_font (m : morx) : font :=
+  mkFont 24 1000 800%Z (-200)%Z 0%Z (repeat 500 24) None
+         (map (fun i => (57344 + N.of_nat i, N.of_nat i + 1)) (seq 0 23)) [] None None None None (Some m).
+Definition ex_chain (k : morx_kind) (cov : N) : morx := mkMorx 2 [mkMorxChain 1 [] [mkMorxSub cov 1 k]].
+Definition ex_text (gs : list N) : list (N * N) := map (fun '(g, i) => (57343 + g, N.of_nat i)) (combine gs (seq 0 (length gs))).
+Definition ex_states (e1 e2 : N) : list (list N) := [[0; 0; 0; 0; e1; 0]; [0; 0; 0; 0; e1; 0]; [0; 0; 0; 0; e1; e2]].
+Definition ex_out (r : result shaped) : list (N * N) := match r with Ok sh => sh_glyphs sh | Error _ => [(999, 999)] end.
+
+(* 1 2 -> ligature 8 (cluster of the first component), the second component is deleted *)
+Example C17_ex_ligature :
+  ex_out (shape_morx (ex_font (ex_chain (MLigature
+            (mkStateTable 6 (mkAatLookup 6 [(1, 4); (2, 5)] None) (ex_states 1 2)
+               [mkLigE 0 0 0; mkLigE 2 0x8000 0; mkLigE 0 0xA000 1])
+            [0; 0; 0xC0000002] [9; 9; 1; 2] [20; 21; 22; 8]) 0)) LTR 0 (ex_text [1; 2; 3]))
+  = [(8, 0); (3, 2)].
+Proof. vm_compute. reflexivity. Qed.
+
+(* after glyph 1 insert glyphs[1..3) = 9 10 (copies of 1: cluster 0) *)
+Example C17_ex_insertion :
+  ex_out (shape_morx (ex_font (ex_chain (MInsertion
+            (mkStateTable 6 (mkAatLookup 0 [(1, 4); (2, 5)] None) [[0; 0; 0; 0; 1; 0]; [0; 0; 0; 0; 1; 0]]
+               [mkIns 0 0 65535 65535; mkIns 0 64 1 65535])
+            [12; 9; 10; 11]) 0)) LTR 0 (ex_text [1; 3]))
+  = [(1, 0); (9, 0); (10, 0); (3, 1)].
+Proof. vm_compute. reflexivity. Qed.
+
+(* 1 marks first (the second 1 re-marks), 2 marks last and runs verb 1 (Ax => xA) on [1 2];
+   merge_clusters gives both the smaller cluster 2 *)
+Example C17_ex_rearrangement :
+  ex_out (shape_morx (ex_font (ex_chain (MRearrangement
+            (mkStateTable 6 (mkAatLookup 2 [(1, 4); (2, 5)] None) (ex_states 1 2)
+               [mkRearr 0 0; mkRearr 2 0x8000; mkRearr 0 0x2001])) 0)) LTR 0 (ex_text [3; 1; 1; 2]))
+  = [(3, 0); (1, 1); (2, 2); (1, 2)].
+Proof. vm_compute. reflexivity. Qed.
+
+(* contextual, run backwards (coverage bit 0x40000000) over LTR text: matches "2 1" in text order *)
+Example C17_ex_contextual_backwards :
+  ex_out (shape_morx (ex_font (ex_chain (MContextual
+            (mkStateTable 6 (mkAatLookup 2 [(1, 4); (2, 5)] None) (ex_states 1 2)
+               [mkCtx 0 0 65535 65535; mkCtx 2 0x8000 65535 65535; mkCtx 0 0 0 1])
+            [mkAatLookup 6 [(1, 6)] None; mkAatLookup 6 [(2, 7); (3, 8)] None]) 0x40000000)) LTR 0 (ex_text [2; 1; 3]))
+  = [(7, 0); (6, 1); (3, 2)].
+Proof. vm_compute. reflexivity. Qed.
+
+(* a subtable whose feature flags miss the chain's default flags is skipped *)
+Example C17_ex_gated :
+  ex_out (shape_morx (ex_font (mkMorx 2 [mkMorxChain 1 [] [mkMorxSub 0 2 (MNonContextual (mkAatLookup 6 [(1, 5)] None))]]))
+                     LTR 0 (ex_text [1; 2]))
+  = [(1, 0); (2, 1)].
+Proof. vm_compute. reflexivity. Qed.
+
+(* the hypotheses of C17_rearrange are satisfiable with a non-trivial middle *)
+Example C17_ex_verb13 :
+  map gid (rearrange_verb 13 (map (fun g => mkInfo g 0 0 0 0) [1; 2; 10; 11; 12; 3; 4])) = [3; 4; 10; 11; 12; 2; 1].
+Proof. vm_compute. reflexivity. Qed.
